@@ -203,7 +203,7 @@ def main():
     print("MANIFEST.json written:", len(checks), "checks,", len(m["not_applicable"]), "not applicable")
 
 
-HOOK_COMMITS = ["83be2c1", "70f7560", "1c72289", "55bd267", "826cdcd"]
+HOOK_COMMITS = ["83be2c1", "70f7560", "1c72289", "55bd267", "3b24678", "7ff75e2", "14ea588"]
 
 if __name__ == "__main__":
     main()
